@@ -43,7 +43,21 @@ theorem render_segsExpr : ∀ e : Expr, renderSegs (segsExpr e) = renderExpr e
   | .call fn args => by simp [segsExpr, renderExpr, renderSegs_joinS, render_segsExprs args]
   | .orderBy e d => by cases d <;> simp [segsExpr, renderExpr, render_segsExpr e]
   | .sub s => by simp [segsExpr, renderExpr, render_segsSel s]
-  | .setop k ss => by simp [segsExpr, renderExpr, renderSegs_joinS, render_segsSels ss]
+  | .callT fn args => by simp [segsExpr, renderExpr, renderSegs_joinS, render_segsExprs args]
+  | .bitSet cs a => by simp [segsExpr, renderExpr, renderSegs_joinS, render_segsShiftT 0 cs]
+  | .setOp k ss => by simp [segsExpr, renderExpr, renderSegs_joinS, render_segsSels ss]
+  | .arrayJoin src arr => by simp [segsExpr, renderExpr, render_segsExpr src, render_segsExpr arr]
+  | .anyIfNum k => by simp [segsExpr, renderExpr]
+  | .distinct e => by simp [segsExpr, renderExpr, render_segsExpr e]
+  | .mulOp x y => by simp [segsExpr, renderExpr, render_segsExpr x, render_segsExpr y]
+  | .divOp x y => by simp [segsExpr, renderExpr, render_segsExpr x, render_segsExpr y]
+  | .mapFilterKeys keep keys m => by
+    simp [segsExpr, renderExpr, renderSegs_joinS, render_segsExpr m, Function.comp_def]
+  | .mapAt m key => by simp [segsExpr, renderExpr, render_segsExpr m]
+  | .tupleAt name i => by simp [segsExpr, renderExpr]
+  | .topkSlice isTop hasLabels k => by simp [segsExpr, renderExpr, topkText]
+  | .arrayJoinFrom src arr => by simp [segsExpr, renderExpr, render_segsExpr src, render_segsExpr arr]
+  | .fixedLit units scale => by simp [segsExpr, renderExpr]
 theorem render_segsSels : ∀ ss : List Sel, (segsSels ss).map renderSegs = renderSels ss
   | [] => by simp [segsSels, renderSels]
   | s :: ss => by simp [segsSels, renderSels, render_segsSel s, render_segsSels ss]
@@ -56,6 +70,9 @@ theorem render_segsParens : ∀ os : List Expr, (segsParens os).map renderSegs =
 theorem render_segsShift : ∀ (i : Nat) (os : List Expr), (segsShift i os).map renderSegs = renderShift i os
   | _, [] => by simp [segsShift, renderShift]
   | i, o :: os => by simp [segsShift, renderShift, render_segsExpr o, render_segsShift (i + 1) os]
+theorem render_segsShiftT : ∀ (i : Nat) (os : List Expr), (segsShiftT i os).map renderSegs = renderShiftT i os
+  | _, [] => by simp [segsShiftT, renderShiftT]
+  | i, o :: os => by simp [segsShiftT, renderShiftT, render_segsExpr o, render_segsShiftT (i + 1) os]
 theorem render_segsWiths : ∀ ws : List (Alias × Sel), (segsWiths ws).map renderSegs = renderWiths ws
   | [] => by simp [segsWiths, renderWiths]
   | (a, s) :: ws => by simp [segsWiths, renderWiths, render_segsSelBody s, render_segsWiths ws]
